@@ -186,7 +186,8 @@ class ScenarioManagerSd(ScenarioManager):
         for name, function in model.functions.items():
             new_function = new_mod.function(name, model.fn[name])
 
-        new_mod.points = model.points
+        # the clone needs its own table: scenario settings are written into it in place
+        new_mod.points = dict(model.points)
 
         return new_mod
 
